@@ -115,7 +115,7 @@ Qed.
 
 Lemma erefs_loop_rep d g s : CInv g -> Rep d g s -> forall k src idx,
   src + k = node_count g ->
-  erefs_loop g (skipn src (row g)) src idx = Ok (spec_erefs d s (seq src k) idx).
+  erefs_loop d g (skipn src (row g)) src idx = Ok (spec_erefs d s (seq src k) idx).
 Proof.
   intros I R. pose proof (node_count_inv I) as Hn. pose proof (ci_len_row I) as Hl.
   induction k as [|k IH]; intros src idx Hk.
@@ -129,11 +129,11 @@ Proof.
     assert (Ews : seg (cedges g) s0 e0 = spec_weights d s src) by congruence.
     rewrite (skipn_nth _ _ Hs0).
     assert (HR : skipn (S src) (row g) = e0 :: skipn (S (S src)) (row g)) by (apply skipn_nth; auto).
-    assert (Hunf : forall R', erefs_loop g (s0 :: e0 :: R') src idx =
+    assert (Hunf : forall R', erefs_loop d g (s0 :: e0 :: R') src idx =
               rbind (slice (column g) s0 e0) (fun ts =>
               rbind (slice (cedges g) s0 e0) (fun ws =>
-              rmap (fun tl => zip3 idx src ts ws ++ tl)
-                   (erefs_loop g (e0 :: R') (S src) (idx + length ts))))) by reflexivity.
+              rmap (fun tl => zip3 (negb d) idx src ts ws ++ tl)
+                   (erefs_loop d g (e0 :: R') (S src) (idx + length ts))))) by reflexivity.
     rewrite HR, Hunf, <- HR.
     rewrite !slice_ok by (try rewrite (ci_cedges I); auto). cbn [rbind].
     rewrite IH by lia. cbn [rmap seq spec_erefs]. rewrite Ets, Ews. reflexivity.
